@@ -33,7 +33,14 @@ RULE = (
     "e-acute, non-BMP, an already escaped \\054); token keys x values; the full attribute product; the test-client "
     "jar for all strings <=2 (thorough <=3) atoms. One evaluation = one dump_cookie result checked (value syntax, "
     "ASCII, tail, two parsers). non-trivial = distinct value that takes the quoting branch (does not consist of "
-    "characters the fast path emits verbatim), or a distinct attribute combination with >= 1 attribute."
+    "characters the fast path emits verbatim), or a distinct attribute combination with >= 1 attribute. Round 2 adds: "
+    "10 further sweep contexts (code point next to backslash, quote, semicolon, space, =, %, comma, an octal escape), "
+    "all pairs over 141 boundary code points, strings <=5 atoms (thorough), every token character inside a key, "
+    "sync_expires with a harness-owned clock, Response.set_cookie / delete_cookie / max_cookie_size product, invalid "
+    "SameSite values, further expires forms, several cookies in one Cookie header with duplicate keys and cls=, the "
+    "test client's set_cookie / get_cookie / delete_cookie with the full domain x origin_only x path x request host x "
+    "request path grid, and every jar history <=3 (thorough <=5) over 11 set / replace / delete / expire operations "
+    "against a dict model."
 )
 ASSUMPTIONS = [
     "space inside the quotes is tolerated unescaped (the suite pins '\"a b\"'; it cannot end the pair)",
@@ -41,6 +48,13 @@ ASSUMPTIONS = [
     "canonical spellings are literal harness-side strings (IDNA / percent-encoding / IMF-fixdate computed by hand)",
     "expires is always given explicitly or sync_expires=False, so datetime.now() is never read",
     "a defect that needs two unrelated rare code points in one value is out of reach (sweep contexts are fixed)",
+    "sync_expires: werkzeug.http.datetime is replaced by a subclass whose now() is the harness clock (T0 + 0.9 s) while "
+    "those cases run; Expires may be the truncated or the rounded second",
+    "an invalid SameSite value must be refused or emitted as one of Strict / Lax / None matching the request",
+    "a MultiDict groups values by key: per key the parsed values must be the sent ones in order (no global order)",
+    "the test client's scoping is judged by RFC 6265 domain-match / path-match (the Client documents both)",
+    "bytes keys / values are rejected by dump_cookie since 3.0 (TypeError) and are not part of the space; non-token "
+    "and non-ASCII keys are outside the quantifier ('every token key')",
 ]
 
 from werkzeug.http import dump_cookie  # noqa: E402
@@ -250,6 +264,10 @@ def _app(req):
         r = Response("ok")
         r.set_cookie(_JAR["key"], _JAR["value"], **_JAR["kw"])
         return r
+    if req.path == "/delete":
+        r = Response("ok")
+        r.delete_cookie(**_JAR["delete"])
+        return r
     return Response("|".join(f"{k}\x00{v}" for k, v in req.cookies.items(multi=True)))
 
 
@@ -306,6 +324,340 @@ def jar_case(R, key, v, kwi):
             R.violation("jar:attributes", rec)
 
 
+# ================================================================== round 2 spaces
+# Each space is a pure function  <name>_problem(*params) -> (problem | None, detail)  so that replay is one call.
+
+import contextlib  # noqa: E402
+from datetime import date as _date  # noqa: E402
+
+import werkzeug.http as _whttp  # noqa: E402
+from werkzeug.datastructures import ImmutableMultiDict, MultiDict, TypeConversionDict  # noqa: E402
+
+EPOCH_TEXT = "Thu, 01 Jan 1970 00:00:00 GMT"
+_REAL_DT = datetime
+
+
+class _FakeMeta(type):
+    def __instancecheck__(cls, obj):  # isinstance(x, werkzeug.http.datetime) must keep meaning "a datetime"
+        return isinstance(obj, _REAL_DT)
+
+
+class _FakeDT(_REAL_DT, metaclass=_FakeMeta):
+    fixed = T0.replace(microsecond=900000)
+
+    @classmethod
+    def now(cls, tz=None):
+        return cls.fixed.astimezone(tz) if tz is not None else cls.fixed.replace(tzinfo=None)
+
+
+@contextlib.contextmanager
+def owned_clock():
+    """dump_cookie(sync_expires=True) reads werkzeug.http.datetime.now(); give it the harness clock (T0 + 0.9 s)."""
+    old = _whttp.datetime
+    _whttp.datetime = _FakeDT
+    try:
+        yield
+    finally:
+        _whttp.datetime = old
+
+
+def _plus(seconds):
+    return ((T0 + timedelta(seconds=seconds)).strftime("%a, %d %b %Y %H:%M:%S GMT"),
+            (T0 + timedelta(seconds=seconds + 1)).strftime("%a, %d %b %Y %H:%M:%S GMT"))
+
+
+# ---- SY: sync_expires with the owned clock (max_age given, expires absent -> Expires = clock + max_age)
+SYNC_AGES = [(0, 0), (60, 60), (timedelta(minutes=2, microseconds=7), 120), (-1, -1), (86400 * 400, 86400 * 400),
+             (1, 1)]
+SYNC_VIA = ["dump_cookie", "Response.set_cookie"]
+
+
+def sync_problem(ai, via, ei, vi):
+    age, secs = SYNC_AGES[ai]
+    exp, eexp = EXPIRES[ei]
+    v = ATTR_VALUES[vi]
+    with owned_clock():
+        try:
+            if via == 0:
+                h = dump_cookie("k", v, max_age=age, expires=exp, path="/", sync_expires=True)
+            else:
+                r = Response("x")
+                r.set_cookie("k", v, max_age=age, expires=exp)
+                hs = r.headers.getlist("Set-Cookie")
+                if len(hs) != 1:
+                    return "set-cookie-count", hs
+                h = hs[0]
+        except Exception as e:  # noqa: BLE001
+            return "exception:" + type(e).__name__, repr(e)
+    # explicit expires wins; otherwise clock + max_age, truncated or rounded to the second (statement silent)
+    wanted = [eexp] if eexp is not None else list(_plus(secs))
+    ok = []
+    for w in wanted:
+        attrs = ["Expires=" + w, "Max-Age=%d" % secs, "Path=/"]
+        ok.append(attr_problem(v, h, attrs))
+    if None in ok:
+        return None, h
+    return "sync-expires:" + ok[0], h
+
+
+# ---- RD: Response.set_cookie / delete_cookie / max_cookie_size
+def resp_problem(pi, di, se, ho, si, pa, op, msz):
+    path, epath = PATHS[pi]
+    dom, edom = DOMAINS[di]
+    ss, ess = SAMESITES[si]
+    r = Response("x")
+    r.max_cookie_size = msz
+    v = "a;b c" * 3
+    try:
+        with warnings.catch_warnings(record=True) as caught:
+            warnings.simplefilter("always")
+            if op == "delete":
+                r.delete_cookie("k", path=path, domain=dom, secure=se, httponly=ho, samesite=ss, partitioned=pa)
+            elif op == "set":
+                r.set_cookie("k", v, max_age=60, expires=T0, path=path, domain=dom, secure=se, httponly=ho,
+                             samesite=ss, partitioned=pa)
+            else:  # set then delete: two headers, in call order
+                r.set_cookie("k", v, max_age=60, expires=T0, path=path, domain=dom, secure=se, httponly=ho,
+                             samesite=ss, partitioned=pa)
+                r.delete_cookie("k", path=path, domain=dom, secure=se, httponly=ho, samesite=ss, partitioned=pa)
+    except Exception as e:  # noqa: BLE001
+        return "exception:" + type(e).__name__, repr(e)
+    hs = r.headers.getlist("Set-Cookie")
+    want = []
+    if op in ("set", "set+delete"):
+        want.append((v, expected_attrs(edom, T0_TEXT, "60", se, ho, epath, ess, pa)))
+    if op in ("delete", "set+delete"):
+        want.append(("", expected_attrs(edom, EPOCH_TEXT, "0", se, ho, epath, ess, pa)))
+    if len(hs) != len(want):
+        return "set-cookie-count", hs
+    for h, (val, attrs) in zip(hs, want):
+        what = attr_problem(val, h, attrs)
+        if what:
+            return ("delete:" if val == "" else "set:") + what, hs
+    # the warning machinery must not alter or drop the header; it may only warn
+    for w in caught:
+        if not issubclass(w.category, UserWarning):
+            return "unexpected-warning-category", repr(w.message)
+    return None, hs
+
+
+# ---- SS: invalid SameSite values cannot be canonically spelled: refused, or emitted canonically
+BAD_SAMESITES = ["bogus", "", "strict ", " lax", "none;Secure", "Strict\r\nX: y", "lax, strict", "STRICT"]
+
+
+def samesite_problem(i, via):
+    ss = BAD_SAMESITES[i]
+    try:
+        if via == 0:
+            h = dump_cookie("k", "v", samesite=ss, path=None)
+        else:
+            r = Response("x")
+            r.set_cookie("k", "v", samesite=ss, path=None)
+            h = r.headers.getlist("Set-Cookie")[0]
+    except ValueError:
+        return None, "refused"
+    except Exception as e:  # noqa: BLE001
+        return "exception:" + type(e).__name__, repr(e)
+    if h in ("k=v; SameSite=Strict", "k=v; SameSite=Lax", "k=v; SameSite=None") and \
+            ss.strip().lower() == h.rpartition("=")[2].lower():
+        return None, h
+    return "samesite-not-canonical", h
+
+
+# ---- DT: further expires forms (date object; numeric edge values)
+EXP_FORMS = [(_date(2030, 1, 2), "Wed, 02 Jan 2030 00:00:00 GMT"), (0, EPOCH_TEXT), (0.0, EPOCH_TEXT),
+             (1, "Thu, 01 Jan 1970 00:00:01 GMT"), (T0.replace(microsecond=999999), T0_TEXT),
+             (datetime(1970, 1, 1), EPOCH_TEXT), (T0.timestamp() + 0.999, T0_TEXT)]
+
+
+def expform_problem(i, vi):
+    exp, text = EXP_FORMS[i]
+    v = ATTR_VALUES[vi]
+    try:
+        h = dump_cookie("k", v, expires=exp, path=None)
+    except Exception as e:  # noqa: BLE001
+        return "exception:" + type(e).__name__, repr(e)
+    what = attr_problem(v, h, ["Expires=" + text])
+    return (("expires:" + what) if what else None), h
+
+
+# ---- MC: several cookies in one Cookie header (what a client sends), duplicate keys, cls=
+MC_KEYS = ["a", "b", "a"]
+MC_VALUES = ["v", "a;b", 'x"y', "p q", "", "é", "\\", "a=b", "; b=evil", '"', "b=1; a", "\x1f,"]
+MC_CLS = [None, MultiDict, dict, ImmutableMultiDict, TypeConversionDict]
+
+
+MC_SEPS = ["; ", ";", " ; ", "; ; ", ";;"]
+
+
+def multi_problem(keys, vals, clsi, parser, sepi=0):
+    pairs = [(MC_KEYS[k], MC_VALUES[v]) for k, v in zip(keys, vals)]
+    cls = MC_CLS[clsi]
+    try:
+        header = MC_SEPS[sepi].join(dump_cookie(k, v, path=None) for k, v in pairs)
+        if sepi >= 3 and pairs:
+            header = "; " + header + ";"      # empty pairs at both ends as well
+        if parser == 0:
+            got = sansio_parse_cookie(header, cls=cls) if cls else sansio_parse_cookie(header)
+        else:
+            env = {"HTTP_COOKIE": header} if pairs else {}
+            got = environ_parse_cookie(env, cls=cls) if cls else environ_parse_cookie(env)
+    except Exception as e:  # noqa: BLE001
+        return "exception:" + type(e).__name__, repr(e)
+    if cls is not None and type(got) is not cls:
+        return "multi:wrong-class", type(got).__name__
+    if cls in (dict, TypeConversionDict):
+        if dict(got) != dict(pairs):
+            return "multi:pairs", (header, dict(got))
+    else:
+        # a MultiDict groups values by key; per key the values must be exactly the sent ones, in order
+        if sorted(got.items(multi=True)) != sorted(pairs) or set(got.keys()) != {k for k, _ in pairs}:
+            return "multi:pairs", (header, list(got.items(multi=True)))
+        for k in set(k for k, _ in pairs):
+            if got.getlist(k) != [v for kk, v in pairs if kk == k]:
+                return "multi:getlist", (header, k, got.getlist(k))
+    return None, header
+
+
+# ---- KS: every token character inside a key
+TCHARS = [chr(c) for c in range(0x21, 0x7F) if chr(c).isalnum() or chr(c) in "!#$%&'*+-.^_`|~"]
+KS_VALUES = ["", "v", 'a;b "q"\\', "é ="]
+
+
+# ---- CJ: the test client's own cookie API: scoping, replacement, deletion, expiry
+CJ_DOMAINS = ["localhost", "example.com", "sub.example.com"]
+CJ_PATHS = ["/", "/a", "/a/", "/a/b"]
+RQ_HOSTS = ["localhost", "example.com", "sub.example.com", "xexample.com", "other.test", "a.sub.example.com"]
+RQ_PATHS = ["/", "/a", "/a/", "/a/b", "/ab", "/a/b/c", "/b", "/a/bc"]
+CJ_VALUE = 'a;b "q"\\ é,='
+
+
+def _ref_send(cd, origin_only, cp, host, rp):
+    dom_ok = host == cd or (not origin_only and host.endswith("." + cd))
+    path_ok = rp == cp or (rp.startswith(cp) and (cp.endswith("/") or rp[len(cp):len(cp) + 1] == "/"))
+    return dom_ok and path_ok
+
+
+def _sent(c, host, rp):
+    body = c.get(rp, base_url="http://%s/" % host).get_data(as_text=True)
+    if not body:
+        return []
+    return sorted(tuple(x.split("\x00", 1)) for x in body.split("|"))
+
+
+def scope_problem(di, origin_only, pi, hi, ri):
+    cd, cp, host, rp = CJ_DOMAINS[di], CJ_PATHS[pi], RQ_HOSTS[hi], RQ_PATHS[ri]
+    try:
+        c = Client(_app)
+        c.set_cookie("k", CJ_VALUE, domain=cd, origin_only=origin_only, path=cp, secure=True, samesite="Lax")
+        ck = c.get_cookie("k", domain=cd, path=cp)
+        got = _sent(c, host, rp)
+    except Exception as e:  # noqa: BLE001
+        return "exception:" + type(e).__name__, repr(e)
+    if ck is None or ck.decoded_value != CJ_VALUE or ck.domain != cd or ck.path != cp \
+            or ck.origin_only is not origin_only or ck.secure is not True or ck.same_site != "Lax":
+        return "client:get_cookie", None if ck is None else vars(ck)
+    want = [("k", CJ_VALUE)] if _ref_send(cd, origin_only, cp, host, rp) else []
+    if got != want:
+        return ("client:cookie-not-sent" if want else "client:cookie-leaked"), got
+    return None, got
+
+
+# operation alphabet of the jar histories; the model is a dict (domain, path, key) -> value
+JAR_OPS = ["set-v1", "set-v2", "set-a-v3", "delete", "delete-a", "expire-maxage", "expire-epoch", "resp-set-v4",
+           "resp-delete", "resp-expire-a", "set-other-key"]
+V1, V2, V3, V4 = 'one;"1"', "two 2", "th\\ree", "fo,ur=4"
+
+
+def jar_history_problem(hist):
+    model = {}
+    try:
+        c = Client(_app)
+        for oi in hist:
+            op = JAR_OPS[oi]
+            if op == "set-v1":
+                c.set_cookie("k", V1)
+                model[("localhost", "/", "k")] = V1
+            elif op == "set-v2":
+                c.set_cookie("k", V2, httponly=True)
+                model[("localhost", "/", "k")] = V2
+            elif op == "set-a-v3":
+                c.set_cookie("k", V3, path="/a")
+                model[("localhost", "/a", "k")] = V3
+            elif op == "set-other-key":
+                c.set_cookie("j", V1)
+                model[("localhost", "/", "j")] = V1
+            elif op == "delete":
+                c.delete_cookie("k")
+                model.pop(("localhost", "/", "k"), None)
+            elif op == "delete-a":
+                c.delete_cookie("k", path="/a")
+                model.pop(("localhost", "/a", "k"), None)
+            elif op == "expire-maxage":
+                c.set_cookie("k", "x", max_age=0, expires=T0)
+                model.pop(("localhost", "/", "k"), None)
+            elif op == "expire-epoch":
+                c.set_cookie("k", "x", expires=0)
+                model.pop(("localhost", "/", "k"), None)
+            elif op == "resp-set-v4":
+                _JAR.update(key="k", value=V4, kw={"max_age": 60, "expires": T0})
+                c.get("/set")
+                model[("localhost", "/", "k")] = V4
+            elif op == "resp-delete":
+                _JAR.update(delete=dict(key="k"))
+                c.get("/delete")
+                model.pop(("localhost", "/", "k"), None)
+            elif op == "resp-expire-a":
+                _JAR.update(delete=dict(key="k", path="/a"))
+                c.get("/delete")
+                model.pop(("localhost", "/a", "k"), None)
+        outs = {}
+        for rp in ("/x", "/a/x"):
+            outs[rp] = _sent(c, "localhost", rp)
+        stored = {k: (c.get_cookie(k[2], domain=k[0], path=k[1]).decoded_value
+                      if c.get_cookie(k[2], domain=k[0], path=k[1]) else None)
+                  for k in [("localhost", "/", "k"), ("localhost", "/a", "k"), ("localhost", "/", "j")]}
+    except Exception as e:  # noqa: BLE001
+        return "exception:" + type(e).__name__, repr(e)
+    for rp in ("/x", "/a/x"):
+        want = sorted((k[2], v) for k, v in model.items() if _ref_send(k[0], True, k[1], "localhost", rp))
+        if outs[rp] != want:
+            return "jar-history:sent-cookies", {"path": rp, "got": outs[rp], "want": want}
+    for k, v in stored.items():
+        if model.get(k) != v:
+            return "jar-history:get_cookie", {"key": k, "got": v, "want": model.get(k)}
+    return None, outs
+
+
+# ---- dispatcher used by run_unit and replay
+R2 = {
+    "sync": sync_problem, "resp": resp_problem, "samesite": samesite_problem, "expform": expform_problem,
+    "multi": multi_problem, "scope": scope_problem, "jarhist": lambda *h: jar_history_problem(h),
+}
+
+
+def r2_eval(R, space, params, nontrivial=True):
+    R.ev()
+    try:
+        what, detail = R2[space](*params)
+    except Exception as e:  # noqa: BLE001 - harness-side surprise: report, replayable
+        what, detail = "harness-exception:" + type(e).__name__, repr(e)
+    R.use("r2:" + space)
+    R.outcome((space, what))
+    if nontrivial:
+        R.nontrivial((space, params))
+    if what:
+        R.violation(f"{space}:{what}", {"kind": "r2", "space": space, "params": list(params), "what": what,
+                                        "detail": detail})
+    return what, detail
+
+
+PAIR_POINTS = list(range(0x80)) + [0x80, 0x85, 0xA0, 0xFF, 0x100, 0x7FF, 0x800, 0x2028, 0xFEFF, 0xFFFD, 0xFFFF,
+                                   0x10000, 0x10FFFF]
+# thorough-only sweep contexts: the code point next to each character class the escaper / parser distinguishes
+EXTRA_CONTEXTS = ["\\%s", "%s\\", '"%s"', ";%s", "%s;", " %s ", "=%s", "%%%s", "%s,", "\\0%s"]
+
+
 # ------------------------------------------------------------------ units
 
 SWEEP_CHUNK = 0x400
@@ -331,7 +683,36 @@ def units(tier):
     jd = 3 if tier == "thorough" else 2
     for i in range(len(ATOMS)):
         us.append(("jar", i, jd))
-    # interleave cheap and expensive units
+    # ---- round 2
+    T = tier == "thorough"
+    us.append(("r2sync",))
+    for pi in range(len(PATHS) if T else 5):
+        us.append(("r2resp", pi))
+    us.append(("r2misc",))
+    for v0 in range(len(MC_VALUES)):
+        us.append(("r2multi", v0))
+    for di in range(len(CJ_DOMAINS)):
+        for oo in (True, False):
+            us.append(("r2scope", di, oo))
+    for o1 in range(len(JAR_OPS)):
+        if T:
+            for o2 in range(len(JAR_OPS)):
+                us.append(("r2jarhist", (o1, o2), 5))
+        else:
+            us.append(("r2jarhist", (o1,), 3))
+    us.append(("r2jarhist", (), 1))
+    for i in range(0, len(PAIR_POINTS), 8):
+        us.append(("pairs", i, i + 8))
+    xtop = 0x110000 if T else 0x3000
+    xchunk = 0x1000 if T else 0x400
+    for lo in range(0, xtop, xchunk):
+        if not (0xD800 <= lo and lo + xchunk <= 0xE000):
+            us.append(("sweepx", lo, min(lo + xchunk, xtop)))
+    if T:
+        # depth-5 strings: one unit per leading atom pair
+        for i in range(len(ATOMS)):
+            for j in range(len(ATOMS)):
+                us.append(("strings5", i, j))
     return us
 
 
@@ -403,6 +784,120 @@ def run_unit(unit, R, tier):
             for key in ("k", "a-b"):
                 jar_case(R, key, ATOMS[i] + ";x", kwi)
         R.use("jar:%d" % i)
+    else:
+        run_r2_unit(unit, R, tier)
+
+
+def run_r2_unit(unit, R, tier):
+    kind = unit[0]
+    T = tier == "thorough"
+    if kind == "r2sync":
+        for ai in range(len(SYNC_AGES)):
+            for via in (0, 1):
+                for ei in ((0, 1, 6) if not T else range(len(EXPIRES))):
+                    for vi in ((0, 1) if not T else range(len(ATTR_VALUES))):
+                        what, h = r2_eval(R, "sync", (ai, via, ei, vi))
+                        R.use("sync:explicit" if EXPIRES[ei][1] else "sync:clock")
+        R.sample({"space": "sync_expires", "clock": str(_FakeDT.fixed), "max_age": 60,
+                  "header": sync_problem(1, 0, 0, 0)[1]})
+    elif kind == "r2resp":
+        pi = unit[1]
+        for di in range(len(DOMAINS) if T else 5):
+            for se, ho, pa in itertools.product((False, True), repeat=3):
+                for si in range(len(SAMESITES) if T else 4):
+                    for op in ("delete", "set", "set+delete"):
+                        for msz in (0, 1, 4093):
+                            r2_eval(R, "resp", (pi, di, se, ho, si, pa, op, msz))
+                            R.use("resp:" + op, "msz:%d" % msz)
+        if pi == 3:
+            R.sample({"space": "delete_cookie", "headers": resp_problem(3, 2, True, False, 1, True, "set+delete", 0)[1]})
+    elif kind == "r2misc":
+        for i in range(len(BAD_SAMESITES)):
+            for via in (0, 1):
+                what, d = r2_eval(R, "samesite", (i, via))
+                R.use("samesite:" + ("refused" if d == "refused" else "emitted"))
+        for i in range(len(EXP_FORMS)):
+            for vi in range(len(ATTR_VALUES)):
+                r2_eval(R, "expform", (i, vi))
+        for c in TCHARS:
+            R.use("tchar:" + c)
+            for key in (c, "x" + c + "y", c + c):
+                for v in KS_VALUES:
+                    check_value(R, key, v, "keysweep")
+    elif kind == "r2multi":
+        v0 = unit[1]
+        nv = len(MC_VALUES)
+        if v0 == 0:
+            for clsi in range(len(MC_CLS)):
+                for parser in (0, 1):
+                    r2_eval(R, "multi", ((), (), clsi, parser), nontrivial=False)
+        # all 1- and 2-cookie headers with every cls; 3 (thorough 4) cookies with the default class
+        for k0 in range(3):
+            for clsi in range(len(MC_CLS)):
+                for parser in (0, 1):
+                    r2_eval(R, "multi", ((k0,), (v0,), clsi, parser))
+                    R.use("cls:%d" % clsi, "parser:%d" % parser)
+                    for k1 in range(3):
+                        for v1 in range(nv):
+                            r2_eval(R, "multi", ((k0, k1), (v0, v1), clsi, parser))
+                            if clsi == 0:
+                                for sepi in range(1, len(MC_SEPS)):
+                                    r2_eval(R, "multi", ((k0, k1), (v0, v1), 0, parser, sepi))
+                                    R.use("sep:%d" % sepi)
+        rest3 = range(nv) if T else range(6)
+        for keys in itertools.product(range(3), repeat=3):
+            for v1 in rest3:
+                for v2 in rest3:
+                    for parser in (0, 1):
+                        r2_eval(R, "multi", (keys, (v0, v1, v2), 0, parser))
+        if T:
+            for keys in itertools.product(range(3), repeat=4):
+                for vs in itertools.product(range(6), repeat=3):
+                    r2_eval(R, "multi", (keys, (v0,) + vs, 0, 0))
+        if v0 == 1:
+            R.sample({"space": "multi-cookie", "header": multi_problem((0, 1, 2), (1, 8, 2), 0, 0)[1]})
+    elif kind == "r2scope":
+        _, di, oo = unit
+        for pi in range(len(CJ_PATHS)):
+            for hi in range(len(RQ_HOSTS)):
+                for ri in range(len(RQ_PATHS)):
+                    what, got = r2_eval(R, "scope", (di, oo, pi, hi, ri))
+                    R.use("scope:sent" if got else "scope:withheld")
+    elif kind == "r2jarhist":
+        _, prefix, depth = unit
+        nops = range(len(JAR_OPS))
+        if not prefix:
+            r2_eval(R, "jarhist", ())
+            return
+        # the unit owns every history that starts with `prefix` (shorter prefixes are owned by the first such unit)
+        if len(prefix) == 2 and prefix[1] == 0:
+            r2_eval(R, "jarhist", prefix[:1])
+        for n in range(len(prefix), depth + 1):
+            for rest in itertools.product(nops, repeat=n - len(prefix)):
+                h = tuple(prefix) + rest
+                r2_eval(R, "jarhist", h)
+        for oi in prefix:
+            R.use("jarop:" + JAR_OPS[oi])
+    elif kind == "pairs":
+        _, a, b = unit
+        for c1 in PAIR_POINTS[a:b]:
+            for c2 in PAIR_POINTS:
+                check_value(R, "k", chr(c1) + chr(c2), "pairs", with_tail=False)
+        R.use("pairs")
+    elif kind == "sweepx":
+        _, lo, hi = unit
+        for cp in range(lo, hi):
+            if 0xD800 <= cp <= 0xDFFF:
+                continue
+            c = chr(cp)
+            for ctx in EXTRA_CONTEXTS:
+                check_value(R, "k", ctx % c, "sweepx", with_tail=False)
+        R.use("sweepx")
+    elif kind == "strings5":
+        _, i, j = unit
+        for t in itertools.product(ATOMS, repeat=3):
+            check_value(R, "k", ATOMS[i] + ATOMS[j] + "".join(t), "strings", with_tail=False)
+        R.use("strings5")
 
 
 def finalize(R, tier):
@@ -416,6 +911,14 @@ def finalize(R, tier):
         need |= {f"path:{i}" for i in range(len(PATHS))} | {f"dom:{i}" for i in range(len(DOMAINS))}
         need |= {f"exp:{i}" for i in range(len(EXPIRES))} | {f"ss:{i}" for i in range(len(SAMESITES))}
     need |= {f"age:{i}" for i in range(len(MAX_AGES))}
+    need |= {"r2:" + k for k in R2} | {"sync:explicit", "sync:clock", "resp:delete", "resp:set", "resp:set+delete",
+                                        "msz:0", "msz:1", "msz:4093", "samesite:refused", "scope:sent",
+                                        "scope:withheld", "pairs", "sweepx"}
+    need |= {"tchar:" + c for c in TCHARS} | {"cls:%d" % i for i in range(len(MC_CLS))} | {"parser:0", "parser:1"}
+    need |= {"sep:%d" % i for i in range(1, len(MC_SEPS))}
+    need |= {"jarop:" + o for o in JAR_OPS}
+    if tier == "thorough":
+        need |= {"strings5"}
     missing = need - R.used
     if missing:
         raise core.Broken(f"vacuity: never exercised {sorted(missing)[:12]}")
@@ -427,8 +930,10 @@ def finalize(R, tier):
         if not VAL.fullmatch(good[2:]):
             raise core.Broken(f"oracle self-test: value syntax rejects {good!r}")
     return {
-        "bound": ("U+0000-U+FFFF x3 contexts, strings <=3 atoms, jar <=2 atoms" if tier == "quick" else
-                  "U+0000-U+10FFFF x3 contexts, strings <=4 atoms, jar <=3 atoms"),
+        "bound": ("U+0000-U+FFFF x3 contexts (+10 contexts up to U+2FFF), strings <=3 atoms, jar <=2 atoms, "
+                  "multi-cookie headers <=3, jar histories <=3" if tier == "quick" else
+                  "U+0000-U+10FFFF x13 contexts, strings <=5 atoms, jar <=3 atoms, multi-cookie headers <=4, "
+                  "jar histories <=5"),
         "exhaustive": True,
         "explanation": "every scalar value of the range individually in three contexts; every string over the "
                        "critical alphabet up to the bound; full attribute product; client jar",
@@ -470,6 +975,10 @@ def replay(rec):
         R = core.Recorder()
         jar_case(R, rec["key"], rec["value"], rec["kw"])
         return bool(R.viol), f"set_cookie({rec['key']!r}, {rec['value']!r}, **{JAR_KW[rec['kw']]}) via Client: {dict(R.viol)}"
+    if k == "r2":
+        params = rec["params"]
+        what, detail = R2[rec["space"]](*params)
+        return bool(what), f"{rec['space']}{tuple(params)} -> problem={what}\n{detail!r}"
     return True, rec.get("traceback", "unit exception")
 
 
